@@ -496,12 +496,23 @@ func (cc *conCase) genStep(t *rapid.T, forceOneIn int) {
 	cc.advance(t)
 }
 
-func genConCase(t *rapid.T) *conCase {
+// conFlavour distinguishes the three registrations of the unit: they share the
+// body, but not the cases (salt shifts the random stream the driver hands to
+// all three with the same seed) nor the mix of state machine kinds.
+type conFlavour struct {
+	salt     int
+	onDiskIn int // one case in onDiskIn uses an on-disk state machine (0: never)
+}
+
+func genConCase(t *rapid.T, fl conFlavour) *conCase {
 	cc := &conCase{}
+	for i := 0; i < fl.salt; i++ {
+		rapid.Uint64().Draw(t, "salt")
+	}
 	tr := &twinRun{viewA: map[uint64]view{}, viewC: map[uint64]view{}}
 	cc.tr = tr
 	cc.kind = kConcurrent
-	if rapid.IntRange(0, 2).Draw(t, "kind") == 2 {
+	if fl.onDiskIn > 0 && rapid.IntRange(1, fl.onDiskIn).Draw(t, "kind") == fl.onDiskIn {
 		cc.kind = kOnDisk
 	}
 	tr.kind = cc.kind
@@ -1052,7 +1063,7 @@ func consaveRule() string {
 		"there, instead, a membership change applied while the worker was writing the image or an Update parked under the worker)"
 }
 
-func runConsave(t *testing.T, unit string) {
+func runConsave(t *testing.T, unit string, fl conFlavour) {
 	st := vfhelp.NewStats(unit, consaveRule())
 	defer st.Flush()
 	var sampled [2]bool
@@ -1061,7 +1072,7 @@ func runConsave(t *testing.T, unit string) {
 		if conDead.Load() {
 			t.Fatalf("VFINCONCLUSIVE consave: an earlier case did not make progress")
 		}
-		cc := genConCase(t)
+		cc := genConCase(t, fl)
 		cc.runA(t)
 		cc.finish(t)
 
@@ -1170,6 +1181,15 @@ func runConsave(t *testing.T, unit string) {
 	st.Set("prepare_snapshot_saw_queued_writer", prepObserved)
 }
 
-func TestVF_C08_ConcurrentSave(t *testing.T) { runConsave(t, "TestVF_C08_ConcurrentSave") }
-func TestVF_C05_ConcurrentSave(t *testing.T) { runConsave(t, "TestVF_C05_ConcurrentSave") }
-func TestVF_C02_ConcurrentSave(t *testing.T) { runConsave(t, "TestVF_C02_ConcurrentSave") }
+func TestVF_C08_ConcurrentSave(t *testing.T) {
+	runConsave(t, "TestVF_C08_ConcurrentSave", conFlavour{salt: 0, onDiskIn: 3})
+}
+
+// C05: client sessions exist only for in-memory state machines
+func TestVF_C05_ConcurrentSave(t *testing.T) {
+	runConsave(t, "TestVF_C05_ConcurrentSave", conFlavour{salt: 1, onDiskIn: 0})
+}
+
+func TestVF_C02_ConcurrentSave(t *testing.T) {
+	runConsave(t, "TestVF_C02_ConcurrentSave", conFlavour{salt: 2, onDiskIn: 2})
+}
